@@ -6,8 +6,8 @@ import crash
 ID = "C16"
 DRIVER = "crash16"
 MODEL_FILES = ["Model/Base.v", "Model/Oplog.v", "Model/Parse.v", "Model/Node.v", "Model/Disk.v", "Model/Cluster.v", "Model/Meta.v"]
-THEOREMS = []
-STRENGTH = {}
+THEOREMS = ["C16_key_ids_crash_safe", "C16_restart_decodes_or_discards", "C16_initial_files_ok", "C16_written_for", "C16_keymap_roundtrip", "C16_keys_file_atomic", "C16_kinv_repl", "C16_kinv_snapshot_keys", "C16_kinv_start", "C16_crash_state_is_trace_prefix", "C16_kill_stops_before_ith_call", "C16_nonvacuous", "C16_lost_database_refuted", "C16_lost_database_id_reused_refuted", "C16_start_without_first_poll_refuted", "C16_illformed_initial_keymap_refuted"]
+STRENGTH = {t: "proof-unbounded" for t in THEOREMS}
 RULE = ("histories of create-db / first write of a new key / write of a known key / snapshot (of a subset of the databases) / "
         "clean shutdown / restart over 1-4 databases, 1-4 process lifetimes; the last lifetime is killed by strace on entering "
         "every write / rename / unlink it makes on the flag file, the key map (and its temporary file), the oplog and the database "
